@@ -175,7 +175,7 @@ Proof.
     - eapply handle_request_keys; [exact Hc|exact Ha|exact Erq].
     - apply oK_of_Ext. eapply handle_no_reply; [exact Hc|exact Erq]. }
   destruct Hk as (new & E & Hnew). cbn in E.
-  pose proof (settle_ext (fuel_for (ms m1)) m1) as He.
+  pose proof (settle_ext (fuel_for m1) m1) as He.
   destruct Hset as [Hs|Hs]; rewrite Hs in He; destruct He as (l & El & Fl);
     rewrite El, E, rkeys_app, Hnew, (rkeys_Qnr l), app_nil_r; try reflexivity;
     (eapply Forall_impl; [exact Fl|apply K_settle_Qnr]).
@@ -192,7 +192,7 @@ Proof.
     - exfalso. eapply Hne. reflexivity.
     - inversion Hsh; subst. cbn. clear. induction (map_to_list (conns s)) as [|p l IH]; [reflexivity|exact IH].
     - inversion Hsh; subst. destruct (conns s !! c); reflexivity. }
-  pose proof (settle_ext (fuel_for (ms m)) m) as He.
+  pose proof (settle_ext (fuel_for m) m) as He.
   destruct Hset as [Hs|Hs]; rewrite Hs in He; destruct He as (l & El & Fl);
     rewrite El, Hm; cbn; apply rkeys_Qnr; (eapply Forall_impl; [exact Fl|apply K_settle_Qnr]).
 Qed.
